@@ -129,6 +129,30 @@ CHECKS["C16"] = {
     "explanation": "composition (string->number (number->string z r) r) executed in the VM and compared with z; literal evaluation compared with string->number",
 }
 
+CHECKS["C04"] = {
+    "engine": "c04",
+    "level": "exploration",
+    "lanes_quick": [("release", None)],
+    "lanes_thorough": [("release", None)],
+    "exhaustive_claim": True,
+    "timeout_thorough": 3 * 3600,
+    "floors": {"control_nontail_growth_observed": 1, "loops_run": 1000, "instructions_observed": 1000000},
+    "rule": "every composition of the 23 tail contexts (if both arms, cond clause/else/=>, case clause/else/=>, last of and/or, when, unless, "
+            "let, let*, letrec, named let, begin, lambda body, body after internal define, call/cc receiver body, apply of a thunk, eval, a mixed "
+            "one) to depth 2 (quick) / 3 (thorough) is enumerated; per composition 3 (quick) / 6 (thorough) programs with self, 2- and 3-procedure "
+            "mutual recursion, seeded caller/callee arities 0..4 with and without rest parameters, and leaf call forms {direct, apply with list, "
+            "apply spread, eval of a quoted call, call/cc directly on the callee}; thorough adds the full 5x5x2x2 arity grid at depth 1. Every program "
+            "runs with n = 10, 10^3, 10^5 (eval-containing programs: 2*10^4 in quick) and must return 'done with the counter at -1. "
+            "exhaustive refers to the enumerated context compositions. Non-trivial = loop completed for all n and high-water marks were compared; "
+            "distinct = distinct program texts.",
+    "assumptions": TRUSTED_COMMON + [
+        "stack height is sampled at instruction boundaries (hook): growth inside one instruction is invisible, O(n) growth is not",
+        "constant = high-water(n=10^5) <= high-water(n=10^3) + 32 slots (a missed tail call costs >= 4 slots per iteration)",
+        "a non-tail control loop must show growth, otherwise the run is inconclusive",
+    ],
+    "explanation": "per-instruction stack high-water counter (verif hook) compared across n for generated tail-recursive loops",
+}
+
 # ---- texts for MANIFEST.json (tools/gen_manifest.py) ----
 MANIFEST_TEXT = {}
 NOT_APPLICABLE = {}
@@ -184,4 +208,12 @@ MANIFEST_TEXT["C16"] = {
     "level_text": "Hundreds of thousands of numbers per run across representations, signs and radices go through the real procedures and must come back "
                   "identical; the printed spelling is also evaluated as a prefixed literal.",
     "level_note": "Trusts the identity comparison and num's BigRational.",
+}
+
+MANIFEST_TEXT["C04"] = {
+    "technique": "runtime monitoring: invariant at a hook (stack high-water mark per instruction boundary) compared across iteration counts for exhaustively enumerated tail-context compositions",
+    "design_ref": "DESIGN.md 6 C04",
+    "level_text": "The context space of R7RS 3.5 up to the stated depth is enumerated completely and each program is actually executed for 10^5 iterations "
+                  "under a counter that sees every instruction boundary; arities, recursion shapes and call forms are sampled per composition.",
+    "level_note": "Trusts the max_sp hook (5 lines in the run loop) and that 32 slots of slack separate constant from linear growth.",
 }
